@@ -3,10 +3,10 @@
 -- value is shorter than 2^62 bytes, which is where Go's wrap-around is the identity).
 -- Heavy case analyses are proved once about a normal form (Proofs/SnapStr.lean, built by lake); here the
 -- freshly translated function is shown to BE that normal form.
--- functions: ds/str String.BitCountByBit, ds/str String.BitCount, ds/str String.getBit, ds/str String.GetBit, ds/str String.Strlen, ds/str String.GetRange, ds/str String.Append, ds/str String.Set, ds/str String.Get, ds/str String.GetSet
+-- functions: ds/str String.SetBit, ds/str String.BitCountByBit, ds/str String.BitCount, ds/str String.getBit, ds/str String.GetBit, ds/str String.Strlen, ds/str String.GetRange, ds/str String.Append, ds/str String.Set, ds/str String.Get, ds/str String.GetSet
 -- properties: C01
 -- import: NodisVerif.Model.DsStr
--- import: NodisVerif.Proofs.SnapStrBits
+-- import: NodisVerif.Proofs.SnapStrSetBit
 namespace NodisVerif.TranslatedTie
 open NodisVerif NodisVerif.Translated NodisVerif.GoLib
 
@@ -61,6 +61,18 @@ theorem str_BitCountByBit_eq_model (v : Bytes) (a b : Int) (hv : v.length < 2 ^ 
   rw [str_BitCountByBit_is_normal_form]; exact StrNF.BitCountByBit_eq_model v a b hv
 
 example : str.String_.BitCountByBit ⟨[0xA5, 0x0F]⟩ 2 12 = .ok 3 := by decide +kernel
+
+theorem str_SetBit_is_normal_form (v : Bytes) (o : Int) (b : Bool) :
+    str.String_.SetBit ⟨v⟩ o b = StrNF.SetBit str.String_.mk v o b := by
+  first | rfl | simp [str.String_.SetBit, StrNF.SetBit]
+
+/-- `SetBit(offset, value)` is the model's `setBit` (grow with zero bytes up to the addressed byte, set or clear bit
+    7−(offset mod 8), return the old bit) for every int64 offset, and never panics -/
+theorem str_SetBit_eq_model (v : Bytes) (o : Int) (b : Bool) (hv : v.length < 2 ^ 58) (ho : inInt64 o) :
+    str.String_.SetBit ⟨v⟩ o b = .ok (⟨(DsStr.setBit (some v) o b).1.getD []⟩, (DsStr.setBit (some v) o b).2) := by
+  rw [str_SetBit_is_normal_form]; exact StrNF.SetBit_eq_model str.String_.mk v o b hv ho
+
+example : str.String_.SetBit ⟨[0xA5]⟩ 9 true = .ok (⟨[0xA5, 0x40]⟩, 0) := by decide +kernel
 
 theorem str_Append_eq_model (v d : Bytes) (h : ¬ (v = [] ∧ d = [])) :
     str.String_.Append ⟨v⟩ d = .ok (⟨v ++ d⟩, (DsStr.append (some v) d).2) := by
